@@ -1,6 +1,7 @@
 """C02 - SolveFailure is raised exactly when the hard constraints are unsatisfiable."""
 from ..core import hyp
 from . import solve_engine as E
+from . import c04
 
 PROPERTY = "C02"
 LEVEL = "exploration"
@@ -9,7 +10,11 @@ RULE = ("cases = generated flat constraint programs (1-4 scalar/enum fields of w
         "else, implies, unique, Boolean composition) x current values x call kind x random-state seed; small-domain "
         "programs are judged against the exhaustively enumerated reference solution set, wide ones against a hidden "
         "anchored assignment; every returned state is evaluated by the reference semantics, and pinned probes "
-        "(members, single-violation witnesses per statement, non-members, bit-flipped v*) check both directions. "
+        "(members, single-violation witnesses per statement, non-members, bit-flipped v*) check both directions; a third "
+        "family takes list programs (C04's generator without random-size lists, every foreach carrying an if/else-if/else "
+        "chain whose conditions mix non-random scalars, the foreach index, random scalars and elements - the conditions "
+        "the library folds to constants before solving) and judges SolveFailure / return / other exception against the "
+        "enumerated solution set over scalar and element values. "
         "non-trivial = at least one call returned and was checked AND (small domain: satisfiable with the solution set "
         "a proper subset of the value space | wide: a probe ran); distinct = distinct canonical program+calls")
 ASSUMPTIONS = [
@@ -25,10 +30,41 @@ def shards(tier):
     per = 220 if tier == "quick" else 6000
     out = [{"kind": "enum", "i": i, "n": per} for i in range(n)]
     out += [{"kind": "wide", "i": i, "n": per} for i in range(4 if tier == "quick" else 8)]
+    out += [{"kind": "foreach", "i": i, "n": 90 if tier == "quick" else 2500} for i in range(6 if tier == "quick" else 8)]
     return out
 
 
+C02_KINDS = ("spurious_solve_failure", "returned_on_unsat", "library_exception")
+
+
+@hyp.composite
+def foreach_cases(d):
+    case = c04._cases(d, p_fold=100, no_randsz=True)
+    case["mode"] = "foreach"
+    return case
+
+
+def run_foreach(case):
+    vios, info = c04.run_case(case)
+    out = []
+    for v in vios:
+        if v["kind"] in C02_KINDS:
+            out.append(dict(v, property=PROPERTY))
+    return out, info
+
+
+def body_foreach(case, acc):
+    vios, info = run_foreach(case)
+    folds = sum(1 for s in case["prog"]["classes"][0]["blocks"][0]["stmts"] if s[0] == "foreach" and any(b[0] == "if" for b in s[4]))
+    acc.case(case, info.get("returned", 0) > 0 and folds > 0 and info.get("len2", False), sample=c04.text_of(case))
+    acc.label("family:foreach with if/else chains")
+    acc.label("if/else chains inside foreach", folds)
+    return vios
+
+
 def body(case, acc):
+    if case.get("mode") == "foreach":
+        return body_foreach(case, acc)
     vios, info = E.run_case(case, acc, WANT)
     if case["mode"] == "enum":
         nt = info.get("returned", 0) > 0 and 0 < info.get("nsol", 0) < info.get("space", 0)
@@ -40,10 +76,12 @@ def body(case, acc):
 
 
 def run_shard(spec, seed, tier, acc):
-    strat = E.enum_cases() if spec["kind"] == "enum" else E.wide_cases()
+    strat = E.enum_cases() if spec["kind"] == "enum" else E.wide_cases() if spec["kind"] == "wide" else foreach_cases()
     hyp.drive(strat, body, seed, spec["n"], acc, shrink=True)
 
 
 def replay(case):
+    if case.get("mode") == "foreach":
+        return run_foreach(case)[0]
     vios, _ = E.run_case(case, None, WANT)
     return vios
